@@ -95,9 +95,7 @@ theorem exec_joins (P : Prog) (s s' : State) (t : Nat) (i : Instr) (rest : List 
 theorem exec_joinU_code (P : Prog) (s s' : State) (t k : Nat) (rest : List Instr)
     (h : exec P s t (.joinU k) rest = some s') : (s'.th t).code = rest := by
   simp only [exec] at h
-  split at h
-  · simp only [Option.some.injEq] at h; subst h; simp
-  · simp at h
+  (repeat' split at h) <;> first | (simp at h; done) | (simp only [Option.some.injEq] at h; subst h; simp)
 
 theorem any_qLaunch_map (P : Prog) (t k : Nat) (h : ((P.body t).map Instr.act).any (qLaunch k) = true) : LaunchIn P t k := by
   simp only [List.any_map, List.any_eq_true] at h
